@@ -202,19 +202,31 @@ theorem mechanism_sound (c : Ctx) (segs : List Seg) (q : Q) (root : Option Flt)
 
 /-! ## sufficient conditions for the two hypotheses -/
 
-/-- **Expansions below their caps are complete**: without request-level fuzzy options,
-`belowCaps` and `rxPrefixOk` for every term group of the plan give `expansionsComplete`.
-(`rxPrefixOk` fails on the unchanged code for patterns such as `rusts?`: second known finding,
-see `regex_prefix_witness`.) -/
-theorem expansionsComplete_of_caps (c : Ctx) (segs : List Seg) (q : Q) (hfz : c.fuzzy = none)
+/-- **Expansions below their caps are complete**: `belowCaps` (prefix/wildcard/regex: at most
+`max_expansions` matching dictionary terms per segment; fuzzy: all candidates of a token fit into
+`fuzzy.max_expansions`) and `rxPrefixOk` for every term group of the plan give
+`expansionsComplete`.  (`rxPrefixOk` fails on the unchanged code for patterns such as `rusts?`:
+second known finding, see `regex_prefix_witness`.) -/
+theorem expansionsComplete_of_caps (c : Ctx) (segs : List Seg) (q : Q)
     (hcap : (plan c true q).groups.all (belowCaps c segs) = true)
     (hrx : (plan c true q).groups.all (rxPrefixOk c segs) = true) :
     expansionsComplete c segs q = true := by
   rw [expansionsComplete_iff]
   intro g hg
   by_cases he : g.exp = .exact
-  · exact exact_groupOK c segs g he (Or.inr hfz)
+  · exact fuzzy_groupOK c segs g he (List.all_eq_true.mp hcap g hg)
   · exact pattern_groupOK c segs g he (List.all_eq_true.mp hcap g hg) (List.all_eq_true.mp hrx g hg)
+
+/-- **Levenshtein**: the row-by-row DP of `bounded_levenshtein` with its early exit returns the
+textbook (Wagner–Fischer) distance when it is at most `max_edits`, and nothing otherwise. -/
+theorem levenshtein_bounded_correct' (a b : Str) (k : Nat) :
+    boundedLev a b k = if Spec.lev a b ≤ k then some (Spec.lev a b) else none :=
+  levenshtein_bounded_correct a b k
+
+/-- non-vacuity: `rust`/`rusk` are one edit apart, `rust`/`fast` two -/
+example : boundedLev [114, 117, 115, 116] [114, 117, 115, 107] 1 = some 1 ∧
+    boundedLev [114, 117, 115, 116] [102, 97, 115, 116] 1 = none ∧
+    Spec.lev [114, 117, 115, 116] [102, 97, 115, 116] = 2 := by decide
 
 /-- **Syntactic coverage**: if the query tree `forces` a scored term (every must-path or every
 required should-path ends in a scored term/query-string/multi-match clause), every wanted document
@@ -315,7 +327,7 @@ theorem indexed_word_found (c : Ctx) (segs : List Seg) (f w : Str) (hk : c.kind 
     intro g hg
     simp only [plan, Matcher.groups, List.mem_singleton] at hg
     subst hg
-    exact exact_groupOK c segs _ rfl (Or.inr hfz)
+    exact exact_groupOK c segs _ rfl (Or.inr (Or.inl hfz))
   rw [mechanism_characterisation c segs _ none rfl hx hs o]
   constructor
   · unfold Spec.wanted
